@@ -4,7 +4,7 @@
 registered suite, builds and runs the demonstration against the changed tree and against a shared
 unchanged baseline build), then optionally runs the named checks against the changed tree with
 VERIF_REPO, and writes seeded/<dir>/confirm.json.  Scratch trees are removed afterwards."""
-import os, sys, json, subprocess, shutil, re, time, fcntl
+import os, sys, json, subprocess, shutil, re, time, fcntl, shlex
 
 ROOT = os.path.dirname(os.path.dirname(os.path.abspath(__file__)))
 SCR = "/var/tmp/muduo_seedcheck"
@@ -61,7 +61,7 @@ def run_demo(meta, seeddir, tree, tag):
     rc, out = sh(b, cwd=work, timeout=900)
     if rc != 0:
         return -999, "demo build failed: " + out[-1500:]
-    rc, out = sh("timeout 180 " + r, cwd=work, timeout=300)
+    rc, out = sh("timeout 180 bash -c " + shlex.quote(r), cwd=work, timeout=300)
     shutil.rmtree(work, ignore_errors=True)
     return rc, out[-1200:]
 
